@@ -212,4 +212,25 @@ Section Batch.
       + intros sid. rewrite count_sid_app. specialize (Hc1 sid). specialize (Hc2 sid). lia.
       + repeat split; congruence.
   Qed.
+
+  (* at least one fan-out, starting from the weak relation *)
+  Lemma batches_R0 k m sp f :
+    R0 c m sp ->
+    exists sps',
+      fold_left (apply_note (now m)) (snd (send_batches (S k) c m)) (sp_subs sp, f) = (sps', f) /\
+      R c (fst (send_batches (S k) c m)) (sp_set_subs sp sps') /\
+      (forall sid, (count_sid sid (snd (send_batches (S k) c m)) <= S k)%nat) /\
+      now (fst (send_batches (S k) c m)) = now m /\ nsid (fst (send_batches (S k) c m)) = nsid m /\
+      vars (fst (send_batches (S k) c m)) = vars m /\ timers (fst (send_batches (S k) c m)) = timers m.
+  Proof.
+    intros HR0. rewrite send_batches_S. cbn [fst snd].
+    destruct (batch_R m sp f HR0) as [sps1 [Hf1 [HR1 [Hc1 [Hn1 [Hs1 [Hv1 Ht1]]]]]]].
+    destruct (batches_R k (fst (send_batch c m)) (sp_set_subs sp sps1) f HR1)
+      as [sps2 [Hf2 [HR2 [Hc2 [Hn2 [Hs2 [Hv2 Ht2]]]]]]].
+    exists sps2. rewrite fold_left_app, Hf1. rewrite Hn1 in Hf2. cbn [sp_set_subs sp_subs] in Hf2.
+    split; [exact Hf2|]. split; [exact HR2|].
+    split.
+    - intros sid. rewrite count_sid_app. specialize (Hc1 sid). specialize (Hc2 sid). lia.
+    - repeat split; congruence.
+  Qed.
 End Batch.
